@@ -91,7 +91,7 @@ func tierFor(prop, tier string) tierCfg {
 	case "C17":
 		// handler registration racing with SetClient/Connect needs real parallelism
 		t.race = true
-		t.raceRuns = 1500
+		t.raceRuns = 4000
 		if tier == "thorough" {
 			t.raceRuns = 40000
 		}
